@@ -64,7 +64,6 @@ const (
 	bktGov      = "governToken"
 	bktProposal = "proposal"
 	bktTimer    = "timer"
-	bktTdpos    = "$tdpos"
 
 	typeOrdinary = "ordinary"
 	typeTdpos    = "tdpos"
@@ -81,6 +80,23 @@ const (
 )
 
 var lockTypes = []string{typeOrdinary, typeTdpos}
+
+// bktTdpos is the kernel contract of the TDPoS methods: "$tdpos", or "$xpos" while the
+// pass "xpos" runs (TDPoS with bft_config: the same methods bound to the other bucket and
+// calling $govern_token as the other caller, tdpos/schedule.go:84). Passes run one after
+// another, so the variable is constant while instances of a pass are alive.
+var (
+	bktTdpos = "$tdpos"
+	xposMode = false
+)
+
+func setXpos(on bool) {
+	xposMode = on
+	bktTdpos = "$tdpos"
+	if on {
+		bktTdpos = "$xpos"
+	}
+}
 
 // accounts: symbolic name -> world key name. c has no genesis quota (fresh).
 var accounts = []string{"a", "b", "c"}
@@ -123,7 +139,7 @@ func (stubNet) PeerInfo() protos.PeerInfo       { return protos.PeerInfo{Account
 // $tdpos kernel methods.
 func registerTdpos(w *world.World) error {
 	m := world.Keys["M"]
-	cfg := fmt.Sprintf(`{"timestamp":"1559021720000000000","proposer_num":"1","period":"3000","alternate_interval":"3000","term_interval":"6000","block_num":"20","vote_unit_price":"1","init_proposer":{"1":[%q]}}`, m.Address)
+	cfg := fmt.Sprintf(`{"timestamp":"1559021720000000000","proposer_num":"1","period":"3000","alternate_interval":"3000","term_interval":"6000","block_num":"20","vote_unit_price":"1","init_proposer":{"1":[%q]}%s}`, m.Address, map[bool]string{false: "", true: `,"bft_config":{}`}[xposMode])
 	cc := cctx.ConsensusCtx{
 		BcName:   world.BCName,
 		Address:  &cctx.Address{Address: m.Address, PrivateKey: m.Priv, PublicKey: &m.Priv.PublicKey, PrivateKeyStr: m.PriJSON, PublicKeyStr: m.PubJSON},
@@ -1709,6 +1725,9 @@ func caseOf(hist []string) map[string]interface{} {
 	}
 	c := map[string]interface{}{"history": append([]string(nil), hist...), "quotas": map[string]int{"a": quotaA, "b": quotaB},
 		"uses_height_before_tip": stale, "after_earlier_transfer": xfer}
+	if xposMode {
+		c["consensus"] = "xpos" // TDPoS with bft_config: methods live in $xpos
+	}
 	if nu := namesUsed(hist); len(nu) > 0 {
 		c["account_name_arguments"] = nu // token -> the string sent (Go-quoted)
 	}
@@ -1755,7 +1774,13 @@ func run(tier core.Tier) *core.Report {
 		i.maxProps = obProps
 		return i
 	}, MaxDepth: obDepth, Report: rep}
-	var st, st2, st3, st4 xplore.Stats
+	// pass "xpos": the full alphabet on a chain whose TDPoS runs with bft_config (methods in $xpos)
+	xpDepth := 3
+	if tier == core.Thorough {
+		xpDepth = 4
+	}
+	cfg5 := xplore.Config{Name: "c19/xpos", New: func() xplore.Instance { return newInst(cnt, col, "full", 1, 1) }, MaxDepth: xpDepth, Report: rep}
+	var st, st2, st3, st4, st5 xplore.Stats
 	if tier == core.Thorough {
 		// the cheaper passes first: the full pass may use up the budget
 		st3 = xplore.Explore(cfg3)
@@ -1768,6 +1793,9 @@ func run(tier core.Tier) *core.Report {
 		st2 = xplore.Explore(cfg2)
 		st3 = xplore.Explore(cfg3)
 	}
+	setXpos(true)
+	st5 = xplore.Explore(cfg5)
+	setXpos(false)
 	// one concrete trace with its observations as the first sample
 	sample := []string{"init", "propose:a", "vote:1:a:all", "vote:1:b:500", "tick", "xfer:a>b:all"}
 	obs, _ := xplore.Replay(func() xplore.Instance { return newInst(&counters{m: map[string]int{}}, nil, "full") }, sample)
@@ -1784,6 +1812,7 @@ func run(tier core.Tier) *core.Report {
 	st2.Fill(rep, "proposal.")
 	st3.Fill(rep, "names.")
 	st4.Fill(rep, "obligations.")
+	st5.Fill(rep, "xpos.")
 	// and one trace of the obligations pass: a proposal passes, a voter locks for a second one before the trigger
 	sample4 := []string{"init", "propose:a", "vote:1:b:500", "vote:1:a:pass", "propose:b:l", "tick"}
 	obs4, _ := xplore.Replay(func() xplore.Instance { return newInst(&counters{m: map[string]int{}}, nil, "full") }, sample4)
@@ -1889,7 +1918,8 @@ func run(tier core.Tier) *core.Report {
 	rep.Set("obligations.vacuity_guards", obligGuards)
 	rep.Set("obligations.rule", fmt.Sprintf("obligations dimension: the harness keeps its own ledger of what every account has locked for which proposal, from the committed calls alone (Propose: deposit %d of the proposer; Vote(p, n): n of the voter; Thaw(p) by the proposer: its deposit is released once; the contract's lock records are not read). After EVERY transition of EVERY pass (and every committed sweep call) the oracle demands for every account: locked[ordinary] >= sum of its ledger entries for the proposals whose stored status is still 'voting' (c19.lock_below_open_obligations.<call kind | timer_task>, flagged where the shortfall opens or widens). The ledger is part of the state key. Pass 'obligations' enumerates all sequences of length <= %d over Init, Propose by a|b with the short (stop tip+%d, trigger tip+%d) or the long (tip+%d / tip+%d) voting period while fewer than %d proposals exist, Vote(p, a|b, 500 | 'pass' = what p lacks to reach %d%% of the supply = %d), Thaw(p, a|b) - offered again after it succeeded and for every status - and block ticks; the timer tasks of both heights (CheckVoteResult, Trigger) run in the blocks of those heights, after the block's call. vacuity_guards count, over the ordinary transitions of all passes: states in which one account owes two open proposals, repeated Thaw calls (by outcome; '_while_caller_owes_another_open_proposal': the class in which a second release would hit another proposal's tokens), blocks whose tally made a proposal pass / rejected it, blocks that ran the Trigger of a passed proposal, and those among them in which a voter of the triggered proposal owes another open proposal (at least as much as its record: a second release of the record would succeed)", proposalDeposit, obDepth, shortStop, shortTrigger, longStop, longTrigger, obProps, minVotePercent, passThreshold))
 	rep.Set("bound", fmt.Sprintf("pass 'obligations': see obligations.rule (length <= %d, <= %d proposals, no sweeps); pass 'full': all call sequences of length <= %d over Init, Transfer(from,to in {a,b,c fresh} incl. to=from; 0,1,500,1000,all,all+1 and, with locks, available / available+1), Propose(a|b), Vote(p,a|b;0,500,all), Thaw(p,a|b), block ticks (timer tasks: CheckVoteResult / Trigger), TDPoS nominate / vote / revokeVote / revokeNominate (1,500,all; revokes naming the tip or the height before it), direct Lock / UnLock, and as last call of every sequence each call of the amount sweep (amount_sweep.rule); pass 'proposal': length <= %d over Init, Transfer a<->b (500, all | available, available+1), Propose, Vote (500, all), Thaw, ticks, amount sweep last; genesis quotas a=%d b=%d; pass 'names': length <= %d over Init, Transfer from a|b to a, b and the alias spellings %v (500, available), Propose(a), nominate(b,500), ticks, both sweeps last; every pass: the name sweep (name_sweep.rule) as last call of the short sequences; merged on the committed content of the governToken, proposal, timer and $tdpos buckets (+ height while timer tasks are pending, + the obligations ledger)", obDepth, obProps, depth, deep, quotaA, quotaB, nmDepth, namesPassTargets))
-	rep.Set("exhaustive", st.Completed && st2.Completed && st3.Completed && st4.Completed)
+	rep.Set("exhaustive", st.Completed && st2.Completed && st3.Completed && st4.Completed && st5.Completed)
+	rep.Set("xpos.rule", fmt.Sprintf("pass 'xpos': the alphabet of pass 'full' (length <= %d; amount and name sweeps after histories of <= 1 call) on a world whose TDPoS object is constructed with bft_config (XPoS): nominateCandidate / voteCandidate / revokeVote / revokeNominate are the methods registered under $xpos, their records live in the $xpos bucket and $govern_token.Lock / UnLock see the caller $xpos; all oracles unchanged", xpDepth))
 	rep.Assume("TDPoS kernel methods are the real ones: bcs/consensus/tdpos.NewTdposConsensus (non-BFT) constructed on the world's contract manager and agent.NewLedgerAgent with a stub network (only PeerInfo is used); the chain's own consensus stays 'single' (block production is done by the harness as Miner.packBlock does)")
 	rep.Assume("genesis has nofee=true (gas prices 0, transactions without UTXO inputs are admissible, as Chain.SubmitTx allows on such chains) so that fees do not bound the call sequences")
 	rep.Assume("every committed call is a transaction that passed State.VerifyTx + DoTx and was packed alone into the next block together with the timer transaction of that height; contract.Manager pre-execution as Chain.PreExec")
@@ -1899,11 +1929,14 @@ func run(tier core.Tier) *core.Report {
 
 func replay(c json.RawMessage) (bool, string, error) {
 	var cs struct {
-		History []string `json:"history"`
+		History   []string `json:"history"`
+		Consensus string   `json:"consensus"`
 	}
 	if err := json.Unmarshal(c, &cs); err != nil {
 		return false, "", err
 	}
+	setXpos(cs.Consensus == "xpos")
+	defer setXpos(false)
 	world.Init()
 	vhook.Capture()
 	cnt := &counters{m: map[string]int{}}
